@@ -20,7 +20,9 @@ func init() {
 // input: (srcView dstView outsideView srcArg dstArg (followLinks wildcards alwaysReplace dirContents))
 // Layout inside a private jail J (the copy runs in a child process chrooted into J, so that
 // absolute symlink targets are meaningful and an escape can only reach the sentinel tree):
-//   /outside  sentinel tree (contents tagged "O:")      /srcroot  source root ("S:")      /dstroot  destination root ("D:")
+//
+//	/outside  sentinel tree (contents tagged "O:")      /srcroot  source root ("S:")      /dstroot  destination root ("D:")
+//
 // output: (err_class outside_before outside_after jailroot_before jailroot_after srcroot_before srcroot_after dst_after)
 func run1401(in Sx) Sx {
 	jail := WorkDir("c14-")
